@@ -140,7 +140,7 @@ def tok_text(t):
     if k == "slot":
         return "(PSlot %s %s \"%s\")" % (tok_text(t[1]), t[2], t[3])
     if k == "new":
-        return "(PNew %d)" % t[1]
+        return "(pnew ok_%d %d)" % (t[1], t[1])     # the result of a refused request is NULL
     raise Unsupported("pointer token " + str(k))
 
 def tok_key(t):
